@@ -673,10 +673,13 @@ class TemplateModel(object):
             return
         logger.debug("Loading spikes subset waveforms to avoid fetching waveforms from raw data.")
         try:
+            # NOTE: these files are read with their stored shapes (n_spikes, n_samples, n_channels),
+            # (n_spikes, n_channels), (n_spikes,): squeezing them would drop the spike or channel
+            # axis of a store holding a single spike or a single channel per spike.
             return Bunch(
-                waveforms=self._read_array(path, mmap_mode='r'),
-                spike_channels=self._read_array(path_channels),
-                spike_ids=self._read_array(path_spikes),
+                waveforms=read_array(path, mmap_mode='r'),
+                spike_channels=read_array(path_channels),
+                spike_ids=read_array(path_spikes),
             )
         except Exception as e:
             logger.warning("Could not load spike waveforms: %s.", e)
